@@ -12,7 +12,7 @@ tie:    translator tr_gates.py; correspondence of the extracted tokeniser
         specification lines (18 field types, 11 directives, 10 syntax gates x
         Versions 0..10 x {pedantic, permissive}).
 search: every disagreement is judged against tok_spec / the HISTORY table."""
-import sys, os, json, subprocess, itertools, time, shutil
+import sys, os, json, subprocess, itertools, time, shutil, re
 from concurrent.futures import ThreadPoolExecutor
 sys.path.insert(0, os.path.join(os.path.dirname(os.path.abspath(__file__)), "..", "bin"))
 import vlib
@@ -30,6 +30,7 @@ GNAMES = ["T_BIT", "T_CARRAY", "T_CONST", "T_DIVIDE", "T_INDIR", "T_LINCOM", "T_
           "D_PROTECT", "D_REFERENCE", "D_VERSION",
           "S_ESCAPES", "S_QUOTES", "S_META_SLASH", "S_SLASH_OPTIONAL", "S_SLASH_REQUIRED", "S_ENDIAN_ARM",
           "S_INT_PREFIX", "S_FRAMEOFFSET_PREFIX", "S_NEW_TYPES", "S_COMPLEX_TYPES", "S_NO_TYPE_CHARS", "S_NO_FILEFRAM",
+          "S_LINCOM_COUNT_OPTIONAL",
           "R_FRAMEOFFSET", "R_ENCODING", "R_ENDIAN", "R_INCLUDE", "R_META", "R_VERSION", "R_PROTECT", "R_REFERENCE",
           "R_UNTIL"]
 
@@ -38,6 +39,10 @@ GNAMES = ["T_BIT", "T_CARRAY", "T_CONST", "T_DIVIDE", "T_INDIR", "T_LINCOM", "T_
 K_PENDING = "tokenise/numeric-escape-pending-at-end-of-string"
 K_SINDIR = "parse/SINDIR-gate-version-2"
 K_NAMES = "validate/hash-or-space-in-field-name-before-version-6"
+K_ERANGE = "literal/strtod-ERANGE-makes-a-literal-a-field-code"
+K_NEGFLIP = "literal/integer-below-INT64_MIN-read-as-positive"
+K_NTOK = "parse/tokeniser-error-in-first-two-tokens-reported-as-N_TOK"
+K_LINCOMN = "parse/LINCOM-count-optional-before-version-7"
 
 
 def load_staged_findings(chk):
@@ -307,6 +312,8 @@ def gate_cases_for(v):
                       lambda gates, ped: {"sub": 0, "O": 3} if directive_seen(gates, ped, "FRAMEOFFSET", True) else {"sub": BAD_LINE}))
         cases.append(("S_META_SLASH", v, pre + "a/m BIT a 1\n",
                       lambda gates, ped: {"sub": 0 if ((not ped) or v >= gates["S_META_SLASH"]) else BAD_NAME}))
+        cases.append(("S_LINCOM_COUNT_OPTIONAL", v, pre + "x LINCOM a 1 0\n",
+                      lambda gates, ped: {"sub": 2 if ped and v < gates["S_LINCOM_COUNT_OPTIONAL"] else 0}))
         cases.append(("S_INT_PREFIX", v, pre + "x RAW %s 010\n" % ty,
                       lambda gates, ped: {"sub": 0, "P": 8 if ((not ped) or v >= gates["S_INT_PREFIX"]) else 10}))
         if v >= 1:
@@ -367,7 +374,7 @@ def gates_part(chk, spec_exe, drv, problems):
             if name in seen_bad:
                 continue
             seen_bad.add(name)
-            key = K_SINDIR if name == "T_SINDIR" else "gate/%s/v%d/%s" % (name, v, mode)
+            key = K_SINDIR if name == "T_SINDIR" else K_LINCOMN if name == "S_LINCOM_COUNT_OPTIONAL" else "gate/%s/v%d/%s" % (name, v, mode)
             chk.violation(key, "Standards Version %d, %s: the line %r is %s by the library (callbacks %s); the Standards (HISTORY: %s from Version %d) demand %s" % (
                 v, "pedantic" if ped else "permissive", text.splitlines()[3], "accepted" if o["C"] == 0 else "rejected", o["cb"],
                 name, spec[name], ("suberror %d" % e_spec["sub"]) if e_spec["sub"] else "acceptance " + str({k: e_spec[k] for k in e_spec if k != "sub"})),
@@ -381,24 +388,326 @@ def gates_part(chk, spec_exe, drv, problems):
                         "differences_translated_vs_standards": {k: [code[k], spec[k]] for k in code if code[k] != spec[k]}}
     chk.sample({"gate_case": meta[200][0], "version": meta[200][1], "mode": meta[200][2], "observed": ol[200]})
 
-    # callback protocol (validated, not modelled in Coq): IGNORE / CONTINUE / ABORT / RESCAN
-    frag = "a RAW UINT8 1\nq FOO a\nb RAW UINT8 1\nzz\nc RAW UINT8 1\n"
-    fix = "r RAW UINT8 1\n"
-    want = {"I": lambda o: o["E"] == 0 and o["cb"] == ["8@2", "3@4"] and o["F"] == 4,
-            "C": lambda o: o["E"] == -1 and o["S"] == 8 and o["L"] == 2 and o["cb"] == ["8@2", "3@4"],
-            "A": lambda o: o["E"] == -1 and o["S"] == 8 and o["L"] == 2 and o["cb"] == ["8@2"],
-            "R": lambda o: o["E"] == 0 and o["cb"] == ["8@2", "3@4", "16@4"] and o["F"] == 5}
-    inp2 = ["P%s %s %s" % (a, frag.encode().hex(), fix.encode().hex()) for a in "ICAR"]
-    rc, out, err = run([spec_exe], ("\n".join(inp2) + "\n").encode())
-    ol2 = out.splitlines()
-    for a, l in zip("ICAR", ol2):
+
+
+# ------------------------------------------------------------------ specification lines, entry by entry
+
+def line_cases(chk):
+    """generated field specification lines for the 18 field types (mostly valid, with every optional
+    token present/absent, literals of every form and scalar field codes, and the ways to be wrong)"""
+    rng = chk.rng
+    num_i = ["0", "1", "3", "7", "63", "64", "-1", "010", "0x10", "1e1", "2.7", "4294967297", "-0", "+5", "k", "c<2>", "k<0>", "1;0", "1;2", "", "1e999"]
+    num_c = ["1", "0", "-2.5", "1e3", "0x1p-1", "1;2", "0;1", "1.5;-2", "k", "c<1>", "inf", "nan", "1e-310", "-9223372036854775809", "010", ""]
+    types = ["UINT8", "INT8", "UINT16", "INT16", "UINT32", "INT32", "UINT64", "INT64", "FLOAT32", "FLOAT64", "FLOAT", "DOUBLE",
+             "COMPLEX64", "COMPLEX128", "c", "u", "s", "U", "i", "S", "f", "d", "n", "x", "UINT9", "uint8", ""]
+    q = lambda s: '""' if s == "" else s
+    L = []
+    R = lambda l: rng.choice(l)
+    for ty in types:
+        for spf in ["1", "20", "0", "-1", "0x10", "010", "1.9", "k", "c<3>", "4294967296", "4294967297", "1;0", "1;1", "1e999"]:
+            L.append("x RAW %s %s" % (q(ty), q(spf)))
+        L.append("x CONST %s 1" % q(ty)); L.append("x CONST %s k" % q(ty)); L.append("x CARRAY %s 1 2 3" % q(ty))
+    L += ["x RAW UINT8", "x RAW", "x CONST UINT8", "x CONST FLOAT64 1.5", "x CONST COMPLEX128 1;2", "x CONST UINT8 1;2", "x CONST UINT8 -1",
+          "x CARRAY FLOAT64 1 2.5 k", "x CARRAY UINT8", "x CARRAY COMPLEX64 1;2 3", "x STRING", "x STRING abc", 'x STRING "a b" c', 'x STRING ""',
+          "x SARRAY", "x SARRAY a", 'x SARRAY a "" "b c"', "x LINTERP a", "x LINTERP a /t", "x LINTERP a t u", "INDEX RAW UINT8 1", "FILEFRAM RAW UINT8 1",
+          "x FOO a", "x raw UINT8 1", "x MULTIPLY a", "x MULTIPLY a b", "x DIVIDE a b c", "x INDIR a c", "x SINDIR a s", "x INDIR a", "x SINDIR"]
+    for n in ["", "1", "2", "3", "0", "4", "-1", "01", "1x", "a", "2147483649", "4294967297"]:
+        for k in range(0, 5):
+            trip = " ".join("%s %s %s" % (R(["a", "b", "in"]), q(R(num_c)), q(R(num_c))) for _ in range(k))
+            L.append(("x LINCOM %s %s" % (q(n) if n != "" else "", trip)).replace("  ", " ").strip())
+        L.append("x LINCOM %s a 1" % n); L.append("x LINCOM %s a" % n)
+    for bn in num_i:
+        L.append("x BIT a %s" % q(bn)); L.append("x SBIT a %s" % q(bn))
+        for nb in ["1", "0", "-1", "64", "65", "k", "2.5", ""]:
+            L.append("x BIT a %s %s" % (q(bn), q(nb))); L.append("x SBIT a %s %s" % (q(bn), q(nb)))
+        L.append("x PHASE a %s" % q(bn)); L.append("x MPLEX a b %s" % q(bn))
+        for pd in ["0", "1", "-1", "k", "10", "2.9", ""]:
+            L.append("x MPLEX a b %s %s" % (q(bn), q(pd)))
+        for op in ["EQ", "NE", "SET", "CLR", "GT", "GE", "LT", "LE", "XX", "eq", ""]:
+            L.append("x WINDOW a b %s %s" % (q(op), q(bn)))
+    L += ["x BIT a", "x PHASE a", "x MPLEX a b", "x WINDOW a b EQ", "x WINDOW a b", "x PHASE a 1 2", "x BIT a 1 2 3"]
+    for v in num_c:
+        L.append("x RECIP a %s" % q(v)); L.append("x WINDOW a b GT %s" % q(v)); L.append("x PHASE a %s" % q(v))
+        for k in range(1, 8):
+            L.append("x POLYNOM a " + " ".join(q(R(num_c)) for _ in range(k)))
+    L += ["x RECIP a", "x POLYNOM a 1", "x POLYNOM a"]
+    return sorted(set(L))
+
+
+def lines_part(chk, spec_exe, lit_exe, drv, problems):
+    variant = probe_variant(lit_exe)
+    lines = line_cases(chk)
+    cases = []
+    versions = range(11)
+    for v in versions:
+        ty = "c" if v < 5 else "UINT8"
+        # k CONST / c CARRAY exist from Version 6 / 8 only; scalar codes are not resolved at parse time anyway
+        pre = "/VERSION %d\na RAW %s 1\nb RAW %s 1\n" % (v, ty, ty)
+        sub = lines if (chk.thorough or v in (0, 4, 5, 6, 7, 8, 9, 10)) else lines[::3]
+        for mode in "PQ":
+            for ln in (sub if mode == "P" else sub[::2]):
+                if v < 6 and mode == "P" and ('"' in ln or "\\" in ln):
+                    continue                       # no quoting before Version 6
+                cases.append((mode, v, pre, ln))
+    inp1 = "".join("%sI %s\n" % (m, (pre + ln + "\n").encode().hex()) for m, v, pre, ln in cases).encode()
+    inp2 = "".join("%s %d %s\n" % (m, v, (ln + "\n").encode().hex()) for m, v, pre, ln in cases).encode()
+    rc1, o1, e1 = run([spec_exe], inp1)
+    rc2, o2, e2 = run([drv, "line", variant], inp2)
+    il, ml = o1.splitlines(), o2.splitlines()
+    if rc1 != 0 or rc2 != 0 or len(il) != len(cases) or len(ml) != len(cases):
+        problems.append("line harness/driver failed rc=%d/%d lines=%d/%d/%d %s %s" % (rc1, rc2, len(cases), len(il), len(ml), e1[-200:], e2[-200:]))
+        return
+    n_ok = n_err = n_ub = nbad = 0
+    reported = set()
+    for (m, v, pre, ln), x, y in zip(cases, il, ml):
+        o = parse_spec_out(x)
+        if o["C"] == 0 and o["E"] == 0:
+            got = x.split(" X:", 1)[1] if " X:" in x else "?"
+        elif o["C"] == 1 and o["cb"][0].endswith("@4"):
+            got = "E" + o["cb"][0].split("@")[0]
+        else:
+            got = "?" + x
+        by_code, by_spec = y.split("\t")
+        if by_spec == "UB" or by_code == "UB":
+            n_ub += 1
+            continue
+        if by_spec.startswith("E"):
+            n_err += 1
+        else:
+            n_ok += 1
+        if got == by_spec:
+            continue
+        ftype = ln.split()[1] if len(ln.split()) > 1 else "?"
+        rep = {"kind": "spec-line-entry", "line": ln, "standards_version": v, "mode": "pedantic" if m == "P" else "permissive",
+               "observed": x, "expected_by_standards": by_spec, "expected_with_translated_gates": by_code,
+               "how": "printf '%sI %s\\n' | <harness/C08/spec>   (entry x dumped after X:)" % (m, (pre + ln + "\n").encode().hex())}
+        if got == by_code:
+            # only a version gate differs: the findings of gates_part
+            key = K_LINCOMN if ftype == "LINCOM" else "gate-entry/%s" % ftype
+        elif "1e999" in ln or "1e-310" in ln:
+            key = K_ERANGE
+        elif "-9223372036854775809" in ln:
+            key = K_NEGFLIP
+        else:
+            key = "line/%s/%s" % (ftype, ln.encode().hex()[:40])
+        nbad += 1
+        if key in reported or len(reported) > 12:
+            continue
+        reported.add(key)
+        chk.violation(key, "Standards Version %d %s: the line %r gives [%s]; dirfile-format(5) (LineSpec.v) demands [%s]" % (
+            v, "pedantic" if m == "P" else "permissive", ln, got, by_spec) + ("" if by_code == by_spec else " (with the parser's own gates: [%s])" % by_code), rep, found=True)
+    chk.cov["evaluations"] += len(cases)
+    chk.cov["distinct_nontrivial"] += n_err
+    chk.cov["spec_lines"] = {"distinct_lines": len(lines), "cases": len(cases), "accepted_by_standards": n_ok, "rejected_by_standards": n_err,
+                             "skipped_undefined_in_C": n_ub, "disagreements": nbad}
+
+
+# ------------------------------------------------------------------ callback protocol
+
+def callback_part(chk, spec_exe, drv, problems):
+    rng = chk.rng
+    GOOD = lambda i: ("g%d RAW UINT8 1" % i, None)
+    BAD = [lambda i: ("q%d FOO a" % i, 8), lambda i: ("zz%d" % i, 3), lambda i: ("b%d RAW UINT8 0" % i, 1),
+           lambda i: ('u%d "abc' % i, 13), lambda i: ("INDEX RAW UINT8 1", 9), lambda i: ("k%d RAW UINT9 1" % i, 11),
+           lambda i: ("l%d LINCOM 4 a 1 0" % i, 2), lambda i: ("w%d RAW UI\\x00 1" % i, 7)]
+    cases = []
+    fixed = ["I", "C", "A", "R", "X", "CI", "IC", "CA", "RA", "CRX", "ICRA", "RRC", "CCCA"]
+    for k in range(300 if not chk.thorough else 5000):
+        n = rng.randint(1, 9)
+        lines, verdicts = [], []
+        for i in range(n):
+            f = GOOD if rng.random() < 0.45 else rng.choice(BAD)
+            txt, v = f(i)
+            lines.append(txt); verdicts.append(v)
+        if rng.random() < 0.3 and lines:          # a duplicate of an accepted line
+            j = rng.randrange(len(lines))
+            if verdicts[j] is None:
+                lines.append(lines[j]); verdicts.append(16)
+        ans = fixed[k] if k < len(fixed) else "".join(rng.choice("ICCARX" if rng.random() < 0.5 else "ICR") for _ in range(rng.randint(1, 6)))
+        cases.append((ans, lines, verdicts))
+    inp1 = "".join("P=%s %s\n" % (a, ("\n".join(ls) + "\n").encode().hex()) for a, ls, vs in cases).encode()
+    inp2 = "".join("%s %s\n" % (a, ",".join("-" if v is None else str(v) for v in vs)) for a, ls, vs in cases).encode()
+    rc1, o1, e1 = run([spec_exe], inp1)
+    rc2, o2, e2 = run([drv, "callback"], inp2)
+    il, ml = o1.splitlines(), o2.splitlines()
+    if rc1 != 0 or rc2 != 0 or len(il) != len(cases) or len(ml) != len(cases):
+        problems.append("callback harness/driver failed rc=%d/%d lines=%d/%d/%d %s %s" % (rc1, rc2, len(cases), len(il), len(ml), e1[-200:], e2[-200:]))
+        return
+    nbad = 0
+    for (a, ls, vs), x, y in zip(cases, il, ml):
+        o = parse_spec_out(x)
+        got = "C%d%s E%d S%d L%d" % (o["C"], "".join(" " + c for c in o["cb"]), o["E"], o["S"], o["L"])
+        if got != y:
+            nbad += 1
+            if nbad == 1:
+                chk.violation("callback/%s" % a, "parser callback answering %s on the fragment %r: gd_cbopen gives [%s], the protocol of gd_cbopen(3) (Callback.v) gives [%s]" % (
+                    a, ls, got, y), {"kind": "callback", "answers": a, "format_file": "\n".join(ls) + "\n", "observed": x, "expected": y,
+                                     "how": "printf 'P=%s %s\\n' | <harness/C08/spec>" % (a, ("\n".join(ls) + "\n").encode().hex())}, found=True)
+    # a syntax error found by the tokeniser must keep its suberror whatever the token count
+    probes = [('a\\x00b RAW UINT8 1\n', 7), ('"abc\n', 13), ('a\\\n', 13), ('x \\u110000 1\n', 7)]
+    rc, out, err = run([spec_exe], "".join("PI %s\n" % p.encode().hex() for p, _ in probes).encode())
+    for (p, want), l in zip(probes, out.splitlines()):
         o = parse_spec_out(l)
-        if not want[a](o):
-            chk.violation("callback/%s" % a, "parser callback answer %s: observed [%s], gd_cbopen(3) demands otherwise" % (
-                {"I": "GD_SYNTAX_IGNORE", "C": "GD_SYNTAX_CONTINUE", "A": "GD_SYNTAX_ABORT", "R": "GD_SYNTAX_RESCAN"}[a], l),
-                {"kind": "callback", "format_file": frag, "answer": a, "observed": l}, found=True)
-    chk.cov["evaluations"] += 4
-    chk.cov["callback_protocol"] = dict(zip("ICAR", ol2))
+        if o["cb"] != ["%d@1" % want]:
+            chk.violation(K_NTOK, "the line %r is reported to the callback as %s; the tokeniser's own error is suberror %d (%s)" % (
+                p, o["cb"], want, "GD_E_FORMAT_CHARACTER" if want == 7 else "GD_E_FORMAT_UNTERM"),
+                {"kind": "suberror", "line": p, "observed": l, "expected": "%d@1" % want,
+                 "how": "printf 'PI %s\\n' | <harness/C08/spec>" % p.encode().hex()}, found=True)
+            break
+    chk.cov["evaluations"] += len(cases) + len(probes)
+    chk.cov["distinct_nontrivial"] += sum(1 for a, ls, vs in cases if any(v is not None for v in vs))
+    chk.cov["callback_protocol"] = {"fragments": len(cases), "disagreements": nbad, "sample": [il[0], il[3], il[9]]}
+
+
+# ------------------------------------------------------------------ literals
+
+def literal_tokens(chk):
+    rng = chk.rng
+    toks = set()
+    A = [b"0", b"1", b"9", b"x", b"e", b"p", b".", b"+", b"-", b";", b"a", b"f", b"n", b"i", b" "]
+    for L in range(0, 5 if not chk.thorough else 6):
+        toks.update(b"".join(x) for x in itertools.product(A, repeat=L))
+    B = [b"0", b"1", b"x", b"e", b".", b"-", b";", b"8"]
+    for L in (5, 6) if not chk.thorough else (6, 7):
+        toks.update(b"".join(x) for x in itertools.product(B, repeat=L))
+    special = ["18446744073709551615", "18446744073709551616", "9223372036854775807", "9223372036854775808",
+               "-9223372036854775808", "-9223372036854775809", "-18446744073709551615", "-18446744073709551616",
+               "0x7fffffffffffffff", "0x8000000000000000", "0xffffffffffffffff", "0x10000000000000000", "-0x8000000000000001",
+               "01777777777777777777777", "02000000000000000000000", "0777", "08", "09", "0x", "0xg", "0x1g", "00", "-0", "+0", "-0.0",
+               "1e308", "1.7976931348623157e308", "1.8e308", "1e309", "1e999", "-1e999", "1e-307", "1e-310", "1e-320", "4.9e-324", "1e-400",
+               "0e999", "0.0e-999", "0x1p1023", "0x1p1024", "0x1.fffffffffffffp1023", "0x1p-1022", "0x1p-1074", "0x1p-1075", "0x3p-1075",
+               "0x0p99999", "0x.8", "0x8.", "0x.", "0x.p1", "0x1p", "0x1p+", "0x1p+1", "0x1P-1", "0X1.8P1", "1e", "1e+", "1e+5", "1E-5", ".", ".5", "5.",
+               "5.e1", ".e1", "inf", "INF", "Infinity", "infinit", "infinityx", "-inf", "+INF", "nan", "NaN", "nan()", "nan(0x1)", "nan(a_b)", "nan(", "nan(a-b)",
+               "-nan", " 12", "\t12", "\n-12", "12 ", " ", "1;2", "1.5;2.5", "1;0", "1;-0", "1;0.0", "1;nan", "1;inf", "inf;nan", "1;2;3", "1;;2", ";", "1;", ";2",
+               "1e999;1", "1;1e999", "1e-400;2", "0x10;010", "1 ;2", "1; 2", "a", "a<1>", "a<>", "a<x><2>", "a<1>j", "a<-1>", "a<010>", "a<0x10>", "a<4294967296>",
+               "a<99999999999999999999>", "<1>", "a<1", "a<1><2>", "a b<3>", "1<2>", "1e5<2>", "1.5", "2.5", "-1.5", "1e30", "-1e30", "255", "256", "4294967295",
+               "4294967296", "4294967297", "-1", "63", "64", "2147483648", "-2147483649", "1_0", "1,5", "1d5", "0b1", "++1", "+-1", "- 1"]
+    toks.update(s.encode() for s in special)
+    digs = b"0123456789"
+    for _ in range(4000 if not chk.thorough else 60000):
+        k = rng.random()
+        if k < 0.3:      # integers near the 64-bit limits, any base
+            v = rng.choice([2**63, 2**64, 2**31, 2**32, 2**53, 10**19, 10**18]) + rng.randint(-3, 3)
+            s = rng.choice(["%d", "0x%x", "0%o", "-%d", "-0x%x", "+%d"]) % v
+        elif k < 0.6:    # decimal floats, exponent anywhere
+            m = "%d" % rng.randint(0, 99999)
+            if rng.random() < 0.7:
+                m = m[:rng.randint(0, len(m))] + "." + m[rng.randint(0, len(m)):]
+            e = rng.choice([0, 1, -1, 5, 300, 308, 309, 400, -300, -306, -330, -400, 20, 19, 18])
+            s = rng.choice(["", "-", "+"]) + m + rng.choice(["e", "E"]) + rng.choice(["", "+", "-"]) .replace("-", "-" if e < 0 else "") + str(abs(e))
+        elif k < 0.75:   # hexadecimal floats
+            s = rng.choice(["", "-"]) + "0x" + "%x" % rng.randint(0, 2**40) + rng.choice(["", ".", ".8", ".0001"]) + rng.choice(["", "p0", "p10", "p-10", "p1000", "p1030", "p-1030", "p-1080", "p-1100"])
+        elif k < 0.9:    # complex
+            a = rng.choice(special[:60]); b = rng.choice(special[:60]); s = a + ";" + b
+        else:            # junk
+            s = "".join(rng.choice("01.ex-+;<>a npif") for _ in range(rng.randint(1, 8)))
+        toks.add(s.encode())
+    # leave out tokens whose magnitude lies where the ERANGE oracle of the driver is a guess
+    out = []
+    for tk in sorted(toks):
+        if b"\x00" in tk:
+            continue
+        out.append(tk)
+    return out
+
+
+def probe_variant(lit_exe):
+    """which of the pending repairs of _GD_TokToNum the library under test contains
+    (Literal.cfg: uflow = C07-3, oflow = C08-5, zero = C07-4, ullpos = C08-4)"""
+    probes = [b"1e-310", b"1e999", b"-0", b"-9223372036854775809"]
+    rc, out, err = run([lit_exe, "num"], "".join("10 0 %s\n" % p.hex() for p in probes).encode())
+    f = [l.split()[1] for l in out.splitlines()]
+    if rc != 0 or len(f) != 4:
+        return "0000"
+    bit = lambda b: "1" if b else "0"
+    return (bit(f[0].startswith("F0:")) + bit(f[1].startswith("F0:")) + bit(f[2] == "F0:8000000000000000") +
+            bit(f[3].startswith("F0:") and int(f[3][3:], 16) >> 63 == 1))
+
+
+def literal_part(chk, lit_exe, drv, problems):
+    variant = probe_variant(lit_exe)
+    toks = literal_tokens(chk)
+    modes = [(10, 1), (8, 1), (5, 0)]
+    inp = "".join("%d %d %s\n" % (st, ped, tk.hex() or "-") for tk in toks for st, ped in modes).encode()
+    rc1, o1, e1 = run([lit_exe, "num"], inp)
+    rc2, o2, e2 = run([drv, "num", variant], inp)
+    il, ml = o1.splitlines(), o2.splitlines()
+    n = len(toks) * len(modes)
+    if rc1 != 0 or rc2 != 0 or len(il) != n or len(ml) != n:
+        problems.append("literal harness/driver failed rc=%d/%d lines=%d/%d/%d %s %s" % (rc1, rc2, n, len(il), len(ml), e1[-200:], e2[-200:]))
+        return
+    n_lit = n_field = n_ub = 0
+    reported = set()
+    k = 0
+    for tk in toks:
+        for st, ped in modes:
+            impl, (model, spec, flags) = il[k], ml[k].split("\t")
+            k += 1
+            fi, fm = impl.split(), model.split()
+            same = all(a == b or b.endswith("UB") for a, b in zip(fi, fm))
+            n_ub += sum(1 for b in fm if b.endswith("UB"))
+            impl_num = not fi[0].startswith("C-1")
+            if spec == "NUM":
+                n_lit += 1
+            else:
+                n_field += 1
+            rep = {"kind": "literal", "token_hex": tk.hex(), "token": tk.decode("latin-1"), "standards_version": st, "pedantic": ped,
+                   "impl": impl, "model": model, "spec": spec, "flags": flags,
+                   "how": "echo '%d %d %s' | <harness/C08/lit> num    (four calls of _GD_TokToNum: complex, double, unsigned, signed)" % (st, ped, tk.hex() or "-")}
+            if impl_num != (spec == "NUM"):
+                key = K_ERANGE if ("ER" in flags and not impl_num) else "literal/class/%s" % tk.hex()[:30]
+                if key not in reported:
+                    reported.add(key)
+                    chk.violation(key, "the token %r is %s for _GD_TokToNum but %s by the rule of dirfile-format(5) (entire token parses by strtod(3))%s" % (
+                        tk, "a number" if impl_num else "not a number (so a field code)", "a literal number" if spec == "NUM" else "not a literal",
+                        "; strtod reports ERANGE on it" if "ER" in flags else ""), rep, found=True)
+            elif "NEG" in flags and impl_num and fi[1].startswith("F0:") and int(fi[1][3:], 16) >> 63 == 0:
+                if K_NEGFLIP not in reported:
+                    reported.add(K_NEGFLIP)
+                    chk.violation(K_NEGFLIP, "the negative integer literal %r is read as the positive double with bits %s" % (tk, fi[1][3:]), rep, found=True)
+            elif not same and "model/literal" not in reported:
+                reported.add("model/literal")
+                chk.violation("model/literal", "correspondence broken: _GD_TokToNum(%r, %d, %d) gives [%s], the model [%s]" % (tk, st, ped, impl, model),
+                              dict(rep, correspondence="C08 Literal.v vs _GD_TokToNum"), found=False)
+    # through the public API: gd_add_spec + gd_entry on five scalar parameters
+    sel = [tk for tk in toks if 0 < len(tk) <= 24 and b"\n" not in tk]
+    sel = sel[::max(1, len(sel) // (3000 if not chk.thorough else 20000))]
+    smodes = [(10, "P"), (8, "P"), (6, "Q")]
+    inp = "".join("%d %s %s\n" % (st, m, tk.hex()) for tk in sel for st, m in smodes).encode()
+    rc1, o1, e1 = run([lit_exe, "scalar"], inp)
+    rc2, o2, e2 = run([drv, "scalar", variant], inp)
+    il, ml = o1.splitlines(), o2.splitlines()
+    n2 = len(sel) * len(smodes)
+    if rc1 != 0 or rc2 != 0 or len(il) != n2 or len(ml) != n2:
+        problems.append("scalar harness/driver failed rc=%d/%d lines=%d/%d/%d %s %s" % (rc1, rc2, n2, len(il), len(ml), e1[-200:], e2[-200:]))
+        return
+    k = 0
+    n_sc_diff = 0
+    for tk in sel:
+        for st, m in smodes:
+            impl, (model, spec) = il[k].strip(), ml[k].split("\t")
+            k += 1
+            # compare use by use; a use the model marks UB is skipped
+            uses = lambda s: re.findall(r"E\S+(?: [LS]\S+)?|UB", s)
+            a, b = uses(impl), uses(model)
+            if st < 9 and m == "P":      # WINDOW does not exist before Version 9
+                a, b = a[:4], b[:4]
+            ok = len(a) == len(b) and all(x == y or y == "UB" for x, y in zip(a, b))
+            if not ok:
+                n_sc_diff += 1
+                if n_sc_diff <= 12 and os.environ.get("C08_DEBUG"): print("DBG", tk, st, m, impl, "|", model.strip())
+                if "model/scalar" not in reported:
+                    reported.add("model/scalar")
+                    chk.violation("model/scalar", "correspondence broken: scalar parameter %r (Version %d %s) gives [%s] through gd_add_spec/gd_entry, the model of _GD_SetScalar [%s]" % (
+                        tk, st, m, impl, model.strip()),
+                        {"kind": "scalar", "token_hex": tk.hex(), "impl": impl, "model": model.strip(), "spec": spec,
+                         "how": "echo '%d %s %s' | <harness/C08/lit> scalar" % (st, m, tk.hex())}, found=False)
+    chk.cov["evaluations"] += 4 * n + 5 * n2
+    chk.cov["distinct_nontrivial"] += n_lit
+    chk.cov["literals"] = {"code_variant(uflow,oflow,zero,ullpos)": variant, "tokens": len(toks), "TokToNum_calls": 4 * n, "spec_literals": n_lit, "spec_field_codes": n_field,
+                           "results_undefined_in_C_skipped": n_ub, "scalar_parameters_through_gd_add_spec": 5 * n2,
+                           "scalar_disagreements": n_sc_diff}
+    chk.sample({"token": "0x1p-1074", "impl": il and il[0]})
 
 
 # ------------------------------------------------------------------ field names
@@ -492,12 +801,13 @@ def main():
         exe = vlib.build_harness(impl, os.path.join(V, "harness/C08/tok.c"))
         spec_exe = vlib.build_harness(impl, os.path.join(V, "harness/C08/spec.c"))
         vf_exe = vlib.build_harness(impl, os.path.join(V, "harness/C08/vf.c"))
+        lit_exe = vlib.build_harness(impl, os.path.join(V, "harness/C08/lit.c"))
         # the build cache is shared and pruned by other checks running at the same
         # time: work from private copies of the three executables
         sd = vlib.scratch("verif-c08-")
-        exe, spec_exe, vf_exe = [shutil.copy(x, os.path.join(sd, os.path.basename(x) + "-%d" % i))
-                                 for i, x in enumerate((exe, spec_exe, vf_exe))]
-        ok, log = vlib.coq_make(["C08/Token.vo", "C08/TokSpec.vo", "C08/Standards.vo", "Gen/Gates.vo", "C08/GatesDefs.vo", "C08/Names.vo"])
+        exe, spec_exe, vf_exe, lit_exe = [shutil.copy(x, os.path.join(sd, os.path.basename(x) + "-%d" % i))
+                                          for i, x in enumerate((exe, spec_exe, vf_exe, lit_exe))]
+        ok, log = vlib.coq_make(["C08/Token.vo", "C08/TokSpec.vo", "C08/Standards.vo", "Gen/Gates.vo", "C08/GatesDefs.vo", "C08/Names.vo", "C08/Literal.vo", "C08/Callback.vo", "C08/LineSpec.vo"])
         drv = vlib.build_ocaml_driver("C08", "C08/Extract.v", "ocaml/C08/driver.ml") if ok else None
     except vlib.BuildError as e:
         chk.violation("build", "build failed: " + str(e)[:2000], {"kind": "build", "log": str(e)}, found=False)
@@ -510,6 +820,9 @@ def main():
     tokeniser_part(chk, exe, drv, problems)
     gates_part(chk, spec_exe, drv, problems)
     names_part(chk, vf_exe, drv, problems)
+    literal_part(chk, lit_exe, drv, problems)
+    callback_part(chk, spec_exe, drv, problems)
+    lines_part(chk, spec_exe, lit_exe, drv, problems)
     chk.cov["rule"] = ("tokeniser: every string of the listed lengths over the listed alphabets (exhaustive enumeration, both dialects: Version 5 and Version 10) "
                        "through gd_strtok (token sequence + error) and one _GD_Tokenise call with MAX_IN_COLS (tokens, suberror, *pos), plus generated lines built from "
                        "escape/quote/whitespace/comment pieces incl. bytes >= 0x80, embedded LF and > 14 tokens; non-trivial = Version >= 6 strings containing a backslash, "
